@@ -33,18 +33,7 @@ Qed.
 
 Lemma set_enc_ok k t cur e enc' :
   mem e (supported_enc k) = true -> set_enc k t cur e = (true, enc') -> enc' = e.
-Proof.
-  intros Hm H. destruct k as [cfg|tls|]; unfold set_enc in H.
-  - destruct (String.eqb e cur) eqn:E1.
-    + apply String.eqb_eq in E1. inversion H. congruence.
-    + destruct (String.eqb e "none") eqn:E2; [discriminate|].
-      destruct (String.eqb e "tls" && negb cfg); [discriminate|].
-      destruct t; [|discriminate]. inversion H; subst.
-      unfold supported_enc, mem in Hm. cbn [existsb] in Hm. rewrite E2 in Hm. cbn [orb] in Hm.
-      rewrite orb_false_r in Hm. apply String.eqb_eq in Hm. congruence.
-  - inversion H as [[E1 E2]]. apply String.eqb_eq in E1. congruence.
-  - discriminate.
-Qed.
+Proof. intros _. apply set_enc_ok_is_requested. Qed.
 
 Lemma no_neg_enc_ok conf c :
   needs_negotiation s_repaired conf c (neg_comp conf) (neg_enc conf) = false -> enc_ok conf (ch_enc c) = true.
